@@ -328,7 +328,10 @@ func csrfMain(s *simrt.Sim, info *harness.RunInfo) {
 	if concurrent {
 		singleUse = !s.Chance(250)
 	}
-	idle := simrt.PickS(s, 20*time.Second, 3*time.Second, 6*time.Second, 90*time.Second, 20*time.Second, 6*time.Second, 0)
+	idle := simrt.PickS(s, 20*time.Second, 3*time.Second, 6*time.Second, 90*time.Second, 20*time.Second, 6*time.Second, 0, 500*time.Millisecond)
+	if idle > 0 && idle < time.Second && backend == "session" {
+		idle = 3 * time.Second // sub-second lifetimes only with the storage backends (the session record has its own timeout)
+	}
 	sessionOnly := s.Chance(300)
 	cookieName := simrt.PickS(s, "csrf_", "__Host-csrf_", "xsrf")
 	customGen := !s.Chance(150) || backend == "sim" || concurrent || faults // SimStorage logs its keys: random tokens would make the event log irreproducible
@@ -1104,7 +1107,9 @@ func csrfMain(s *simrt.Sim, info *harness.RunInfo) {
 			} else if !op.ran || (op.kind == "safe" && op.status != 200) {
 				s.Fail("C16.safe-blocked", "op%d (b%d %s %s://%s%s, Origin %q, cookie %s) is a safe request but ran=%v status=%d", op.id, bi, op.method, scheme, op.host, shown, op.origin, alias(op.cookie), op.ran, op.status)
 			}
-			if op.kind == "safe" && !faults && op.ran {
+			// (an idle timeout below one second cannot be expressed in a cookie's whole-second Expires /
+			// Max-Age: the cookie may be dead on arrival; not judged)
+			if op.kind == "safe" && !faults && op.ran && (idle == 0 || idle >= time.Second) {
 				if respTok == "" {
 					s.Fail("C16.safe-no-token-cookie", "op%d (b%d %s %s) left no CSRF cookie (Set-Cookie for %s present=%v)", op.id, bi, op.method, shown, cookieName, respCookie)
 				} else if v := curCookie(b); v != respTok {
